@@ -100,7 +100,28 @@ theorem den_ratio {ctx : Ctx} {Mb : Nat} {q : Query} {G : MG Name} (hq : QInv Mb
     Good ctx.S fr ∧ SumND fr ∧ (Wf OneName (fun _ => True) q.expr → Wf OneName (fun _ => True) fr) ∧
       ∀ σ, denL ctx.M.card ctx.leaf fr σ =
         sumVars ctx.M.card l2 (ctx.M.Q order) σ / sumVars ctx.M.card (node :: l2) (ctx.M.Q order) σ := by
-  sorry
+  obtain ⟨hnd, hmem, _⟩ := regularOrder_spec hq.wfG hord
+  have hd1 : order.drop (l1.length + 1) = l2 := by
+    rw [hsplit, ← List.drop_drop, List.drop_left]; rfl
+  have hd2 : order.drop l1.length = node :: l2 := by rw [hsplit, List.drop_left]
+  have hnd2 : (node :: l2).Nodup := (List.nodup_append.mp (hsplit ▸ hnd)).2.1
+  have hl2nd : l2.Nodup := (List.nodup_cons.mp hnd2).2
+  have hin2 : ∀ n ∈ node :: l2, n ∈ regularNodes G := fun n hn =>
+    (hmem n).1 (hsplit ▸ List.mem_append_right _ hn)
+  have hin1 : ∀ n ∈ l2, n ∈ regularNodes G := fun n hn => hin2 n (List.mem_cons_of_mem _ hn)
+  have hQ : ctx.M.Q (regularNodes G) = ctx.M.Q order :=
+    ctx.M.Q_congr_set (regularNodes_nodup hq.wfG) hnd (fun x => (hmem x).symm)
+  unfold ratioParts at hfr
+  simp only [hd1, hd2] at hfr
+  have g1 : Good ctx.S (sumSafe q.expr (plainVars l2)) := good_sumSafe ctx.S false h.good (h.rng hin1)
+  have g2 : Good ctx.S (sumSafe q.expr (plainVars (node :: l2))) := good_sumSafe ctx.S false h.good (h.rng hin2)
+  refine ⟨good_truediv ctx.S g1 g2 hfr, sumND_truediv (sumND_sumSafe false h.nd) (sumND_sumSafe false h.nd) hfr,
+    fun hwf => wf_truediv (wf_sumSafe oneName_mono false hwf (fun _ _ => trivial))
+      (wf_sumSafe oneName_mono false hwf (fun _ _ => trivial)) hfr, fun σ => ?_⟩
+  rw [denL_truediv hfr σ, denL_sumSafe_false, denL_sumSafe_false,
+    sumVars_plainVars_set ctx.M.card (fun n hn => regular_notT (hin1 n hn)) hl2nd (fun _ => Iff.rfl),
+    sumVars_plainVars_set ctx.M.card (fun n hn => regular_notT (hin2 n hn)) hnd2 (fun _ => Iff.rfl),
+    show (fun τ => denL ctx.M.card ctx.leaf q.expr τ) = ctx.M.Q order from (funext h.est).trans hQ]
 
 /-- **line 9**: the expression built for a component `c` with the members of a district `d` of the current graph
 (regular nodes only) denotes
